@@ -1,7 +1,6 @@
 package main
 
 import (
-	"sync"
 	"bytes"
 	"context"
 	"fmt"
@@ -10,6 +9,7 @@ import (
 	"path/filepath"
 	"regexp"
 	"strings"
+	"sync"
 	"testing/fstest"
 	"time"
 
